@@ -1,7 +1,7 @@
 /-
   Rbgp.Monitor.Spec — C18 written from the property text as a reference checker over
   observations.  Imports the model only for its observation types (`Obs`, `SubObs`, `Item`,
-  `Ev`); calls no model function.
+  `Ev`, `Case`, `Op`, `keyUniverse`); calls no model function that computes behaviour.
 
   Property (properties.jsonl C18): a subscriber that asks for a snapshot and then applies the
   live events it receives ends with exactly the pre-policy and post-policy Adj-RIB-In held by
@@ -13,6 +13,14 @@
   Interpretation (DESIGN §4.0): applying an event = a reach sets the entry, a withdrawal removes
   it, a PeerDown removes every entry of that peer (BMP semantics).  The comparison is made once
   all writers have finished.
+
+  Two kinds of subscriber are judged:
+  * a channel subscriber (`TableManager::subscribe`): the events are the `BgpEvent`s received;
+  * a BMP client (`BmpClient::serve` on a real connection): the events are the BMP messages
+    actually written on the connection (Route Monitoring reach / withdrawal, PeerUp, PeerDown),
+    i.e. what a monitoring station applies.  This clause is only judged when every session of
+    the case is well-formed (routes are announced between a session's up and its down), because
+    `serve` flushes snapshot routes only for established peers.
 -/
 import Rbgp.Monitor.Model
 namespace Rbgp.Monitor.Spec
@@ -43,7 +51,22 @@ def cmp (pfx : String) (sub rib : Option Nat) : Option String :=
   | none, some _ => some (pfx ++ "-missing")
   | some _, none => some (pfx ++ "-phantom")
 
-/-- One universe key of one subscription. -/
+/-- The purge class of operations (GR / LLGR retention and its purges, `drop_families`). -/
+def grOp : Op → Bool
+  | .gdown | .purge | .dropfam | .llgr | .lpurge => true
+  | _ => false
+
+/-- Does the session task of this peer use an operation of the purge class?  (Discriminator of
+    the failure class: a disagreement on such a peer's routes is reported as `purge-…`.) -/
+def peerHasGr (c : Case) (p : Nat) : Bool :=
+  match c.threads[p]? with
+  | some (_, ops) => ops.any grOp
+  | none => false
+
+def cls (c : Case) (key : Key) (clause : String) : String :=
+  if peerHasGr c key.peer then "purge-" ++ clause else clause
+
+/-- One universe key of one channel subscription. -/
 def checkKey (want : Bool) (h : List Item × List Item) (rib : Option Nat × Option Nat) : Option String :=
   if want then
     -- snapshot + live stream reconstruct the RIB exactly
@@ -56,13 +79,25 @@ def checkKey (want : Bool) (h : List Item × List Item) (rib : Option Nat × Opt
     | some c => some c
     | none => if touched h.2 then cmp "nosnap-post" (held h.2) rib.2 else none
 
-def checkKeys (want : Bool) : Nat → List (List Item × List Item) → List (Option Nat × Option Nat) → Option (Nat × String)
-  | _, [], [] => none
-  | pos, h :: hs, r :: rs =>
-      match checkKey want h r with
-      | some c => some (pos, c)
-      | none => checkKeys want (pos + 1) hs rs
-  | pos, _, _ => some (pos, "shape")
+/-- One universe key of one BMP connection: what the station holds = what the RIB holds. -/
+def checkWireKey (h : List Item × List Item) (rib : Option Nat × Option Nat) : Option String :=
+  match cmp "bmp-pre" (held h.1) rib.1 with
+  | some c => some c
+  | none => cmp "bmp-post" (held h.2) rib.2
+
+def checkKeys (cl : Key → String → String) (f : List Item × List Item → Option Nat × Option Nat → Option String) :
+    Nat → List Key → List (List Item × List Item) → List (Option Nat × Option Nat) → Option (Nat × String)
+  | _, [], [], [] => none
+  | pos, k :: ks, h :: hs, r :: rs =>
+      match f h r with
+      | some c => some (pos, cl k c)
+      | none => checkKeys cl f (pos + 1) ks hs rs
+  | pos, _, _, _ => some (pos, "shape")
+
+/-- failure class on a BMP connection: a disagreement about a peer for which no PeerUp was ever
+    written on this connection is reported as `unannounced-…` -/
+def wireCls (c : Case) (wctl : List (List Ev)) (key : Key) (clause : String) : String :=
+  if (wctl.getD key.peer []).isEmpty then "unannounced-" ++ clause else cls c key clause
 
 /-- "Peer-down is reported only for peers whose peer-up was reported": in the stream the
     consumer forwards, every PeerDown(p) follows a PeerUp(p) not yet answered by a PeerDown(p). -/
@@ -72,22 +107,43 @@ def downsFollowUps : List Ev → List Nat → Bool
   | .down p :: r, ups => decide (p ∈ ups) && downsFollowUps r (ups.filter (· != p))
   | _ :: r, ups => downsFollowUps r ups
 
-def checkSub (rib : List (Option Nat × Option Nat)) (s : SubObs) : Option (Nat × String) :=
-  if !downsFollowUps s.fwd [] then some (0, "peerdown-without-peerup")
-  else if !s.live then none     -- an unsubscribed subscriber is promised nothing more
-  else checkKeys s.want 0 s.hist rib
+/-- Every session announces routes only between its up and its down. -/
+def sessionOk : Bool → List Op → Bool
+  | _, [] => true
+  | false, .up :: r => sessionOk true r
+  | true, .up :: _ => false
+  | true, .down :: r => sessionOk false r
+  | true, .gdown :: r => sessionOk false r
+  | false, .down :: _ => false
+  | false, .gdown :: _ => false
+  | isUp, .ins _ _ _ _ :: r => isUp && sessionOk isUp r
+  | isUp, .rem _ _ _ :: r => isUp && sessionOk isUp r
+  | isUp, _ :: r => sessionOk isUp r
 
-def checkSubs (rib : List (Option Nat × Option Nat)) : Nat → List SubObs → Verdict
+def sessionsOk (c : Case) : Bool := c.threads.all fun t => sessionOk false t.2
+
+def checkSub (c : Case) (u : List Key) (rib : List (Option Nat × Option Nat)) (s : SubObs) : Option (Nat × String) :=
+  if s.bmp then
+    if !(s.wctl.all fun l => downsFollowUps l []) then some (0, "bmp-peerdown-without-peerup")
+    else if !sessionsOk c then none
+    else checkKeys (wireCls c s.wctl) checkWireKey 0 u s.whist rib
+  else if !downsFollowUps s.fwd [] then some (0, "peerdown-without-peerup")
+  else if !s.live then none     -- an unsubscribed subscriber is promised nothing more
+  else if s.want && !(s.ctl.contains .eos) then some (0, "no-end-of-snapshot")
+  else checkKeys (cls c) (checkKey s.want) 0 u s.hist rib
+
+def checkSubs (c : Case) (u : List Key) (rib : List (Option Nat × Option Nat)) : Nat → List SubObs → Verdict
   | _, [] => .ok
   | i, s :: r =>
-      match checkSub rib s with
-      | some (pos, c) => .fail i pos c
-      | none => checkSubs rib (i + 1) r
+      match checkSub c u rib s with
+      | some (pos, cl) => .fail i pos cl
+      | none => checkSubs c u rib (i + 1) r
 
 /-- The reference checker. -/
-def check (_ : Case) (o : Obs) : Verdict :=
+def check (c : Case) (o : Obs) : Verdict :=
   if !o.finished then .fail 0 0 "not-finished"
   else if o.extra != 0 then .fail 0 0 "unknown-key"
-  else checkSubs o.rib 0 o.subs
+  else if o.staleList then .fail 0 0 "stale-subscriber-list"
+  else checkSubs c (keyUniverse c) o.rib 0 o.subs
 
 end Rbgp.Monitor.Spec
